@@ -124,6 +124,8 @@ def check(ctx: Ctx) -> None:
     _check_variations(ctx)
     _check_axis_order(ctx)
     _check_falsy_zero(ctx)
+    from ..idioms import check_index_sets_not_spans
+    check_index_sets_not_spans(ctx, 'C05.h', ['pyphysim/simulations/results.py', PAR, RUNNER], floor=3)
 
 
 from ..idioms import falsy_zero_tests  # noqa: E402
